@@ -328,6 +328,13 @@ class C13(Harness):
             out["ft"] = pack(t2.fit_transform(ytr))
             out["tt"] = pack(t.transform(ytr))
             out["fitshape"] = log[0]["shape"]
+            # a two-column series (frame) on the same labels: the result keeps the time index as well
+            t3 = AD(Sk())
+            t3.fit(pd.DataFrame({"a": list(inp["ytr"]), "b": list(reversed(inp["ytr"]))}, index=ytr.index))
+            zf = pd.DataFrame({"a": list(inp["z"]), "b": list(inp["z"])}, index=z.index)
+            r3 = t3.transform(zf)
+            b3 = t3.inverse_transform(r3)
+            out["frame"] = {"zt_index": L(r3.index), "back_index": L(b3.index), "shape": [int(v) for v in r3.shape], "zt_a": L(r3.iloc[:, 0].values)}
         elif k == "passthrough":
             # the wrapped transformer is stateful (its transform depends on what fit saw): transform must not re-estimate it
             AD = W.load("sktime.transformations.series.adapt").TabularToSeriesAdaptor
@@ -340,6 +347,14 @@ class C13(Harness):
             t.fit(ytr)
             out["ft"] = pack(t2.fit_transform(ytr))
             out["tt"] = pack(t.transform(ytr))
+            if not inp["passthrough"] and not inp.get("reused"):
+                # one transformer object configured into two wrappers: each wrapper fits its own copy
+                base = AD(Sk())
+                wa, wb = OP(base), OP(base)
+                wa.fit(ytr)
+                first = pack(wa.transform(z))
+                wb.fit(ser([v + 1 for v in inp["ytr"]], s0 + 1))
+                out["two_wrappers"] = {"first": first, "after_other_fit": pack(wa.transform(z)), "prototype_fitted": hasattr(base.transformer, "ref_") or bool(getattr(base, "_is_fitted", False))}
         zt = t.transform(z)
         out["zt"] = pack(zt)
         back = t.inverse_transform(zt)
@@ -425,12 +440,23 @@ class C13(Harness):
                 if P.sym:
                     P.eq("same-time-index", zt[i], W.uf("boxcox", [z[i], lam], "rr>r"))
         elif k == "adaptor":
+            fr = out["frame"]
+            P.check("same-time-index", fr["shape"] == [len(z), 2] and len(fr["zt_index"]) == len(z) and len(fr["back_index"]) == len(z), {"what": "two-column series", "shape": fr["shape"]})
+            for i in range(min(len(z), len(fr["zt_index"]), len(fr["back_index"]))):
+                off_i = (i if i == 0 else i + 1) if inp.get("gapped") else i
+                P.eq("same-time-index", fr["zt_index"][i], s0 + d + off_i, {"what": "two-column series"})
+                P.eq("same-time-index", fr["back_index"][i], s0 + d + off_i, {"what": "two-column series (inverse)"})
             P.check("adaptor-columnwise", out["fitshape"] == [n_tr, 1])
             ref = inp["ytr"][0]  # the wrapped transformer was fitted on the training series only
             for i in range(len(z)):
                 P.eq("adaptor-columnwise", zt[i], W.uf("sk", [z[i], ref], "rr>r"))
                 P.eq("adaptor-columnwise", bk[i], W.uf("skinv", [W.uf("sk", [z[i], ref], "rr>r"), ref], "rr>r"))
         elif k == "passthrough":
+            if "two_wrappers" in out:
+                tw = out["two_wrappers"]
+                P.check("passthrough", not tw["prototype_fitted"], {"what": "the transformer object passed to the constructor was fitted in place"})
+                for va, vb in zip(tw["first"][1], tw["after_other_fit"][1]):
+                    P.eq("passthrough", vb, va, {"what": "another wrapper around the same transformer object was fitted in between"})
             for i in range(len(z)):
                 if inp["passthrough"]:
                     P.eq("passthrough", zt[i], z[i])
